@@ -1477,8 +1477,50 @@ fn type_cases(rng: &mut Rng, n_random: usize) -> Vec<(String, String, String, St
     out
 }
 
+/// The work runs in a child process (`--worker`) that announces every program on stderr before
+/// evaluating it: an abort of the interpreter (native stack overflow, e.g. an error message that
+/// debug-prints a cyclic environment) then still yields a report naming the input that killed it.
+fn supervise(args: &Args) {
+    use std::io::{BufRead, BufReader};
+    use std::process::{Command, Stdio};
+    let exe = std::env::current_exe().expect("current_exe");
+    let mut cmd = Command::new(exe);
+    cmd.args(std::env::args().skip(1)).arg("--worker").stderr(Stdio::piped());
+    let mut child = cmd.spawn().expect("cannot start worker");
+    let err = child.stderr.take().unwrap();
+    let mut last = String::new();
+    let mut count = 0u64;
+    for line in BufReader::new(err).lines() {
+        let line = match line {
+            Ok(l) => l,
+            Err(_) => continue,
+        };
+        if let Some(rest) = line.strip_prefix("TRACE ") {
+            last = rest.to_string();
+            count += 1;
+        } else {
+            eprintln!("{}", line);
+        }
+    }
+    let st = child.wait().expect("wait");
+    if st.success() {
+        return;
+    }
+    let mut rep = Report::new("C12", args);
+    rep.rule = "worker process died; see notes".into();
+    rep.evaluations = count;
+    rep.notes.push(format!("the worker process ended with {:?} while evaluating the input of the filed disagreement", st));
+    rep.case(&last, true);
+    rep.judge("process-abort", &last, "abort (the interpreter process died: native stack overflow or similar)", "raise-or-value", "raise-or-value");
+    rep.write(&args.out);
+}
+
 fn main() {
     let args = parse_args();
+    if args.replay.is_none() && !args.extra.iter().any(|a| a == "--worker") {
+        supervise(&args);
+        return;
+    }
     install_quiet_panic_hook();
     let mut rep = Report::new("C12", &args);
     rep.rule = "patterns generated from a value (so that about half accept it) or from another value, nesting <= 4: \
@@ -1507,7 +1549,13 @@ fn main() {
         }
     };
     setup(&interp);
-    let wrap = |src: &str| format!("(\\ -> ({}))()", src);
+    let trace = args.replay.is_none();
+    let wrap = |src: &str| {
+        if trace {
+            eprintln!("TRACE {}", src);
+        }
+        format!("(\\ -> ({}))()", src)
+    };
 
     // replay mode
     if let Some(path) = &args.replay {
